@@ -24,8 +24,8 @@ theorem compact_tail (c : Cfg) (mk : Mk) (hmk : MkOk mk) (d : Disk) (w : WSt) (b
     ∃ nbs, (∀ b ∈ nbs, b.WF) ∧ entsOf nbs = entries.map (·.1) ∧
       d.applyAll ((addManyW mk w entries).2 ++ closeW c mk (addManyW mk w entries).1 ++ [.rename .temp .main]) =
         { main := some (base ++ render nbs), temp := none } := by
-  obtain ⟨a, ha, pa⟩ := addManyW_spec mk hmk entries d w base hw
-  obtain ⟨b, hb, hbwf, hfile, _⟩ := closeW_spec c mk hmk _ _ _ pa.inv
+  obtain ⟨a, ha, pa⟩ := addManyW_spec mk hmk entries d w base hw (by rw [hbuf]; exact maxEnts_pos)
+  obtain ⟨b, hb, hbwf, hfile, _⟩ := closeW_spec c mk hmk _ _ _ pa.inv (Nat.le_of_lt pa.cnt)
   refine ⟨a ++ b, ?_, ?_, ?_⟩
   · intro x hx
     rcases List.mem_append.mp hx with hx | hx
@@ -117,7 +117,6 @@ theorem flushW_onlyTemp (mk : Mk) (w : WSt) (hp : w.path = .temp) :
 theorem addW_onlyTemp (mk : Mk) (w : WSt) (hp : w.path = .temp) (e : Op) (sz : Nat) :
     (∀ o ∈ (addW mk w e sz).2, o.onlyTemp = true) ∧ (addW mk w e sz).1.path = .temp := by
   unfold addW
-  simp only
   split
   · exact flushW_onlyTemp mk _ hp
   · exact ⟨by simp, hp⟩
